@@ -84,6 +84,14 @@ CHECKS.update({
    text="1-40 messages (requests, replies, tiny, > 64 KiB, unicode, nested) per writer are written through each codec to a simulated byte stream whose bytes the scheduler delivers in seeded chunks (one byte at a time, splits inside a message, several messages per read): stream codec (IOCodec), gorilla and gobwas WebSocket codecs through a real net/http server + real dialers, HTTP codec through real http.Transport/http.Server. The reader must obtain the same messages once, intact, in per-writer order. For the shipped codec (gorilla) 1-4 concurrent writers per side are used and a tenth of the runs is repeated in a -race build with masked scheduler hand-offs, so that unsynchronised writers are reported.",
    note="The connection is a reliable ordered byte stream (no loss/duplication, as TCP). The simulator never parks a goroutine inside Write (codecs hold their write lock there), so byte interleaving of concurrent writers can only show as a race report or as gorilla's own concurrent-write panic. Step budget exhaustion with byte-at-a-time chunking is counted as inconclusive, not as loss.",
    technique=TECH+"byte-stream chunking schedules over real codecs, HTTP server and dialers; written-vs-read sequence oracle; race detector for concurrent writers", design="4 C17"),
+ "C15": dict(level="exploration",
+   text=W+"A hostile peer, concurrent with honest sessions on other connections, sends hostile but structurally valid JSON-RPC requests to every registered endpoint of the pool, payment and status services (missing/null/object/scalar params, wrong arity and types, duplicate and non-scalar ids, signatures of length 0..71 in several encodings, odd ids, URIs and peer descriptions, negative, huge and overflowing counts - also correctly signed by its own key), raw garbage and truncated JSON, and - registered as a host - hostile replies to whitelist calls; a second scenario runs the real agent.Agent against a hostile pool. A panic anywhere kills the worker process and is reported as the violation with the run's seed; every well-formed request must get exactly one reply with its id and a result or an error; the hostile connection must still answer vipnode_ping after hostile requests; honest sessions must complete.",
+   note="Hostility is injected at message level on the simulated codec (byte-level framing attacks on the WebSocket library are not generated). When the hostile peer also sent hostile replies the pool may drop that connection (the statement exempts floods of replies). \"result\":null next to an error is counted as an error reply.",
+   technique=TECH+"hostile request/reply catalogue injected into live multi-connection sessions; process-survival, one-reply and liveness oracles", design="4 C15"),
+ "C16": dict(level="exploration",
+   text="Servers built from a family of receiver types x prefixes x allow-lists, and the production registrations (vipnode_ with its allow-list, pool_ payment and status): every registered name, case variants, unexported/helper/unregistrable methods, other prefixes; for each callable method every arity 0..n+2, per-position JSON type substitutions, omitted/null/non-array params, directly and through a real jsonrpc2.Remote over a simulated connection: the callable set is exactly {prefix + lower-first(name)} within the allow-list and, for the pool, exactly the documented surface; unknown names get -32601, wrong arity or type gets -32602 and the method does not run (invocation counters; on production receivers no store operation and an unchanged state digest).",
+   note="Low simulation weight: schedule, clock and faults are inert; the simulator contributes the real registration code and the transport path. The method list of a separately started binary over real sockets is not probed (production registration code is reproduced as in pool.go; the L2 scenario, when present, runs runPool itself). JSON null for a scalar parameter is a don't-care.",
+   technique=TECH+"name/arity/type probe matrices against real registration and dispatch code", design="4 C16"),
 })
 
 PENDING = {}  # property -> reason it is not claimed at this commit
